@@ -2,7 +2,7 @@
    after every FilteredFlowWriter.add. Observations of the real FlowReader next to the inputs;
    check_case recomputes them with Model/Tnet.v (same tables/handler sets as Corr/C36.v). *)
 From Coq Require Import List Bool NArith ZArith.
-From MV Require Import Base.Bytes Model.Tnet Gen.FlowReaderExcept Corr.C36.
+From MV Require Import Base.Bytes Model.Tnet Gen.FlowReaderExcept Corr.C36 Model.SaveStream.
 Import ListNotations.
 
 Definition run (depth : nat) (ft : ftable) (fs : stable) (file : bytes) : list tv * final :=
@@ -14,7 +14,26 @@ Inductive case37 :=
         (offsets : list (nat * (nat * final)))
 (* disk content seen after each add: [lens] = its length each time, [counts] = flows read from it *)
 | AfterAdds (depth : nat) (ft : ftable) (fs : stable) (file : bytes) (values : list tv)
-            (snapshots : list (nat * nat)).
+            (snapshots : list (nat * nat))
+(* Save addon under option changes: paths are numbers, [bad] cannot be opened, [init] = files that
+   exist beforehand; per event: did options.update raise, and the record ids in each of the files
+   [0..npaths) as re-read from disk *)
+| SaveOps (bad : list nat) (init : list (nat * list nat)) (npaths : nat)
+          (steps : list (sev * (bool * list (list nat)))).
+
+Definition openable_of (bad : list nat) (p : nat) : bool := negb (existsb (Nat.eqb p) bad).
+Fixpoint fs_of (init : list (nat * list nat)) (p : nat) : list nat :=
+  match init with [] => [] | (q, v) :: r => if Nat.eqb p q then v else fs_of r p end.
+Fixpoint check_ops (openable : nat -> bool) (npaths : nat) (s : sstate)
+         (steps : list (sev * (bool * list (list nat)))) : bool :=
+  match steps with
+  | [] => true
+  | (e, (raised, files)) :: r =>
+      let s' := step openable s e in
+      Bool.eqb (snd s') raised && negb (crashed (fst s'))
+      && list_eqb (list_eqb Nat.eqb) (map (fs (fst s')) (seq 0 npaths)) files
+      && check_ops openable npaths (fst s') r
+  end.
 
 Definition check_case (c : case37) : bool :=
   match c with
@@ -28,4 +47,5 @@ Definition check_case (c : case37) : bool :=
                  let r := run depth ft fs (firstn (fst s) file) in
                  list_eqb tv_eqb (fst r) (firstn (snd s) values) && final_eqb (snd r) Clean)
               snapshots
+  | SaveOps bad init npaths steps => check_ops (openable_of bad) npaths (init_state (fs_of init)) steps
   end.
